@@ -244,11 +244,14 @@ class TransformationGraph(Graph):
             # used multiple times, especially if passthrough is disabled
             self.expr_nodes[expr] = current
 
-            canonical = expr.type in self.language.canon
+            # Follow the type to its binding first: a type that is held
+            # through a bound variable is never found in the canon otherwise
+            source_type = expr.type.normalize()
+            canonical = source_type in self.language.canon
 
             if self.with_types and (canonical or self.with_noncanonical_types):
 
-                type_node = self.add_type(expr.type)
+                type_node = self.add_type(source_type)
                 self.add((current, TF.type, type_node))
 
                 if self.with_supertypes and canonical:
@@ -257,8 +260,8 @@ class TransformationGraph(Graph):
                 if self.with_membership:
                     self.add((root, TF.containsType, type_node))
 
-                if (isinstance(expr.type, TypeOperation) and canonical):
-                    for stype in self.language.supertypes(expr.type, 
+                if (isinstance(source_type, TypeOperation) and canonical):
+                    for stype in self.language.supertypes(source_type, 
                             transitive=True):
                         stype_node = self.add_type(stype)
                         if self.with_membership_supertypes:
